@@ -14,6 +14,7 @@ directly and from a device callback, the way a consumer does.
 from __future__ import annotations
 
 from fractions import Fraction
+import math
 import random
 
 from vlib.dev_harness import EPS, DevHarness, ManualClock, shim_time
@@ -276,6 +277,32 @@ def run_history(ctx, spec: dict, record: bool = True) -> str | None:
                     d = a[1]
                 elif rem is None or rem <= 0:
                     d = a[2]
+                elif a[1].startswith("fine") or a[1] == "pred":
+                    # the last instants before arrival (dyadic travel times only, so the arrival instant is an exact float):
+                    # arrival - 2^-k, or the float predecessor of the arrival instant where that is not representable
+                    arrival = Fraction(clock.now) + rem
+                    target = None
+                    if a[1] != "pred":
+                        cand = arrival - Fraction(1, 2 ** int(a[1][4:]))
+                        if Fraction(float(cand)) == cand:
+                            target = float(cand)
+                    if target is None:
+                        target = math.nextafter(float(arrival), 0.0)
+                        ctx.count("probe_at_float_predecessor_of_arrival")
+                    else:
+                        ctx.count("probe_at_arrival_minus_2^-" + a[1][4:])
+                    new_now = max(clock.now, target)
+                    clock.now = new_now
+                    ctx.count("advance_positive")
+                    mech, _ = query(f"after {name} at arrival-{a[1]}")
+                    if mech:
+                        return mech
+                    # back onto the 2^-12 grid (the arrival instant itself), so that later float sums in the code stay exact
+                    clock.now = max(clock.now, float(arrival))
+                    mech, _ = query(f"after {name} at arrival")
+                    if mech:
+                        return mech
+                    continue
                 else:
                     r = float(rem)
                     d = {"half": q(r / 2), "quarter": q(r / 4), "before": max(0.0, r - EPS), "at": r, "after": r + EPS,
@@ -306,7 +333,8 @@ def gen_history(rng: random.Random, index: int) -> dict:
 
     n = rng.randint(2, 10)
     ops = []
-    tags = ["half", "quarter", "before", "after", "beyond", "most"] + (["at"] if dyadic else [])
+    tags = ["half", "quarter", "before", "after", "beyond", "most"] + (
+        ["at", "fine12", "fine16", "fine20", "fine24", "fine30", "fine40", "pred", "pred"] if dyadic else [])
     for _ in range(n):
         r = rng.random()
         if r < 0.12:
@@ -495,10 +523,10 @@ def run(ctx):
     ctx.rule = (
         "TravelCalculator: history = 2..10 commands from {set_position, update_position, start_travel, up, down, stop}, each followed by "
         "queries at clock advances drawn from {0, 2^-10, half/quarter/31-32nds of the remaining travel time, remaining-2^-10, exactly remaining, "
-        "remaining+2^-10, beyond}; travel times 100*m/2^k (75%) or decimal (25%). Cover: 3..9 user commands / bus telegrams with gaps, 6 address "
+        "remaining+2^-10, beyond, and (dyadic travel times) remaining-2^-k for k in {12,16,20,24,30,40} resp. the float predecessor of the arrival instant}; travel times 100*m/2^k (75%) or decimal (25%). Cover: 3..9 user commands / bus telegrams with gaps, 6 address "
         "layouts x invert flags. distinct = distinct command-kind strings (per layout for Cover)."
     )
-    ctx.require("queries", "advance_zero", "advance_positive", "q_mid_travel", "q_after_travel_time", "q_at_rest", "op_stop",
+    ctx.require("probe_at_float_predecessor_of_arrival", "probe_at_arrival_minus_2^-20", "probe_at_arrival_minus_2^-30", "queries", "advance_zero", "advance_positive", "q_mid_travel", "q_after_travel_time", "q_at_rest", "op_stop",
                 "op_update_position", "cover_queries", "cover_callbacks")
     n_tc = ctx.scale(6000, 15000 * 16)
     n_cover = ctx.scale(250, 600 * 16)
